@@ -605,6 +605,16 @@ def rule_R16(text, applied):
     return t
 
 
+def rule_R16push(text, applied):
+    """`M.entry(K).or_default().push(X)` -> `ventry_push(&mut M, K, X)` (entry API: create the value empty if absent,
+    append X; helper with that contract in prelude/indexmap_stub.rs)."""
+    t, n = _sub_masked(text, r"((?:\w+\s*\.\s*)*\w+)\s*\.\s*entry\((\w+)\)\s*\.\s*or_default\(\)\s*\.\s*push\(",
+                       lambda m, s_: f"ventry_push(&mut {''.join(m.group(1).split())}, {m.group(2)}, ")
+    if n:
+        applied.append(f"R16pushx{n}")
+    return t
+
+
 def rule_R6(text, applied):
     """receiver `mut self` -> `self` plus `let mut self_ = self;` as first statement; `self` -> `self_` in the body."""
     m_text = mask(text)
@@ -1257,6 +1267,7 @@ def rule_const(text, applied):
 
 
 RULES = {
+    "R16push": rule_R16push,
     "R20": rule_R20, "R21": rule_R21, "R7stackrev": rule_R7stackrev,
     "R1": rule_R1, "R2": rule_R2, "R2ref": rule_R2ref, "R3": rule_R3, "R4": rule_R4, "R5": rule_R5,
     "R8max": rule_R8max, "R8cmpmax": rule_R8cmpmax, "R8resize_none": rule_R8resize_none, "R9": rule_R9, "R8position": rule_R8position, "R8rotate": rule_R8rotate, "R12refcell": rule_R12refcell,
@@ -1493,10 +1504,10 @@ def build_fn(src: Source, selector, opts, sections, emitter: Emitter, unit_rules
             elif key.strip() == "hint start":
                 # right after the opening brace of the body
                 add_insert(sig_end + 1, "\n" + val.rstrip("\n") + "\n")
-            elif key.startswith("hint afterloop ") or key.startswith("hint endloop "):
+            elif key.startswith("hint afterloop ") or key.startswith("hint endloop ") or key.startswith("hint startloop "):
                 # right after the closing brace of a loop (afterloop) / as the last statements of its body (endloop);
                 # the loop is selected like in //@loop: regex on its header, k-th match
-                hm = re.match(r"hint (afterloop|endloop) /(.*)/\s*(\d+)?$", key)
+                hm = re.match(r"hint (afterloop|endloop|startloop) /(.*)/\s*(\d+)?$", key)
                 if not hm:
                     raise ExtractError(f"bad hint directive `{key}`")
                 kk = int(hm.group(3) or 1)
@@ -1504,7 +1515,7 @@ def build_fn(src: Source, selector, opts, sections, emitter: Emitter, unit_rules
                 if len(hits) < kk:
                     raise ExtractError(f"{selector}: loop /{hm.group(2)}/ #{kk} not found (lost anchor)")
                 cb_ = match_close(m_text, hits[kk - 1][1])
-                add_insert(cb_ + 1 if hm.group(1) == "afterloop" else cb_, "\n" + val.rstrip("\n") + "\n")
+                add_insert(cb_ + 1 if hm.group(1) == "afterloop" else (hits[kk - 1][1] + 1 if hm.group(1) == "startloop" else cb_), "\n" + val.rstrip("\n") + "\n")
             elif key.startswith("hint "):
                 hm = re.match(r"hint (before|after) /(.*)/\s*(\d+)?$", key)
                 if not hm:
